@@ -34,6 +34,7 @@ static void build_requests(void) {
     REQ[NREQ++] = ev_qlt(0, ST_M1, ST_M1, 5, 0x11, 0);
     REQ[NREQ++] = ev_qlt(1, ST_M1, ST_M1, 5, 0x13, 0);
     REQ[NREQ++] = ev_qlt(0, ST_M1, ST_M1, 5, 0x42, 0);
+    REQ[NREQ++] = ev_qlt(0, ST_M1, ST_BR, 6, 0x0E, 0);      /* the same through a bridge: the answer is broadcast */
     REQ[NREQ++] = ev_reset(0, ST_M1);
 }
 /* scenario id: start*(NREQ+NREQ*NREQ) + (len1: r | len2: NREQ + r1*NREQ + r2); constructors: 2*(...) + c */
